@@ -174,6 +174,7 @@ func runPool(t *testing.T, c *choice.Stream, r *Result, opt RunOpt, lean bool) {
 			}
 			return "?", -1
 		}
+		var stepErr string
 		newPeer := func(n int) simnet.Peer {
 			srv := simnet.NewServer(cf.ServerRev, cf.HandshakeSteps())
 			var body string
@@ -188,6 +189,11 @@ func runPool(t *testing.T, c *choice.Stream, r *Result, opt RunOpt, lean bool) {
 				case refproto.PQuery:
 					if !lean {
 						u, h := userOf(cn, p)
+						for _, st := range p.Settings {
+							if st.Key == "user_tag" && st.Value != u && stepErr == "" {
+								stepErr = fmt.Sprintf("I1|foreign-setting|the query of %s arrived on connection %d carrying the query-level setting of %s", u, cn.ID, st.Value)
+							}
+						}
 						reqs = append(reqs, reqLog{conn: cn.ID, user: u, hold: h, step: e.Sim.Step, at: e.Sim.Now()})
 					}
 					body = p.Body
@@ -223,7 +229,6 @@ func runPool(t *testing.T, c *choice.Stream, r *Result, opt RunOpt, lean bool) {
 		var holds []*holdIv
 		firstUse := map[int]time.Duration{} // conn -> first time a request was seen on it
 		banned := map[int]string{}          // conn -> why it must never be handed out again
-		var stepErr string
 		live := func() int {
 			n := 0
 			for _, cn := range dialer.Dialed {
@@ -353,6 +358,9 @@ func runPool(t *testing.T, c *choice.Stream, r *Result, opt RunOpt, lean bool) {
 			ctx := context.Background()
 			opts := cf.Options()
 			opts.Dialer = dialer
+			// connection-level settings in a slice with spare capacity, as produced
+			// by make(..., 0, n) + append: every pooled client shares its backing array
+			opts.Settings = append(make([]ch.Setting, 0, 8), ch.Setting{Key: "max_threads", Value: "2", Important: true})
 			pool, err := chpool.New(ctx, chpool.Options{ClientOptions: opts, MaxConns: int32(maxConns), MinConns: int32(minConns),
 				MaxConnLifetime: lifetime, MaxConnIdleTime: idleTime, HealthCheckPeriod: period})
 			if err != nil {
@@ -367,6 +375,19 @@ func runPool(t *testing.T, c *choice.Stream, r *Result, opt RunOpt, lean bool) {
 				prog := progs[u]
 				e.Sim.Go(name, func() {
 					defer func() { done <- struct{}{} }()
+					// In the race build nothing but the library may synchronise the users
+					// with each other: even a shared counter lock would order them.
+					fire := func(k string) {
+						if !lean {
+							r.Fire(k)
+						}
+					}
+					probe := func(k string) {
+						if !lean {
+							r.Probe(k)
+						}
+					}
+					_, _ = fire, probe
 					defer func() {
 						if p := recover(); p != nil {
 							r.Violate("panic", "panic:"+firstLibFrame(string(debug.Stack())), "user %s panicked: %v\n%.1500s", name, p, debug.Stack())
@@ -405,11 +426,11 @@ func runPool(t *testing.T, c *choice.Stream, r *Result, opt RunOpt, lean bool) {
 									released = append(released, x)
 								}
 							}
-							r.Fire("churn")
+							fire("churn")
 						case "stale-release":
 							if len(released) > 0 {
 								released[op.N%len(released)].Release()
-								r.Fire("stale_release")
+								fire("stale_release")
 							}
 						case "sleep":
 							time.Sleep(op.Sleep)
@@ -420,7 +441,8 @@ func runPool(t *testing.T, c *choice.Stream, r *Result, opt RunOpt, lean bool) {
 							}
 							if op.Op == "pool-do" {
 								var v proto.ColUInt8
-								_ = pool.Do(ctx, ch.Query{Body: "OK", QueryID: name + " 0", Result: proto.Results{{Name: "v", Data: &v}}})
+								_ = pool.Do(ctx, ch.Query{Body: "OK", QueryID: name + " 0", Result: proto.Results{{Name: "v", Data: &v}},
+									Settings: []ch.Setting{{Key: "user_tag", Value: name}}})
 							} else {
 								_ = pool.Ping(ctx)
 							}
@@ -457,7 +479,7 @@ func runPool(t *testing.T, c *choice.Stream, r *Result, opt RunOpt, lean bool) {
 									banned[iv.conn] = fmt.Sprintf("its client was closed when %s released it at step %d", name, e.Sim.Step)
 								} else if fu, ok := firstUse[iv.conn]; ok && e.Sim.Now()-fu > lifetime {
 									banned[iv.conn] = fmt.Sprintf("it was older than MaxConnLifetime (%v) when %s released it at step %d", lifetime, name, e.Sim.Step)
-									r.Fire("expired_at_release")
+									fire("expired_at_release")
 								}
 							}
 							if !lean {
@@ -465,7 +487,7 @@ func runPool(t *testing.T, c *choice.Stream, r *Result, opt RunOpt, lean bool) {
 							}
 							for k := 0; k < op.N; k++ {
 								if k > 0 {
-									r.Fire("double_release")
+									fire("double_release")
 									e.Sim.Yield("user.release-again")
 								}
 								cl.Release()
@@ -488,22 +510,23 @@ func runPool(t *testing.T, c *choice.Stream, r *Result, opt RunOpt, lean bool) {
 								qctx, cancel = context.WithTimeout(ctx, 500*time.Millisecond)
 							}
 							var v proto.ColUInt8
-							derr := cl.Do(qctx, ch.Query{Body: doBody(op.Op), QueryID: fmt.Sprintf("%s %d", name, iv.id), Result: proto.Results{{Name: "v", Data: &v}}})
+							derr := cl.Do(qctx, ch.Query{Body: doBody(op.Op), QueryID: fmt.Sprintf("%s %d", name, iv.id), Result: proto.Results{{Name: "v", Data: &v}},
+								Settings: []ch.Setting{{Key: "user_tag", Value: name}}})
 							if cancel != nil {
 								cancel()
 							}
 							switch op.Op {
 							case "do-exc":
 								if !ch.IsException(derr) {
-									r.Probe("exc_not_delivered")
+									probe("exc_not_delivered")
 								} else {
-									r.Fire("exception")
+									fire("exception")
 								}
 							case "do-cut":
-								r.Fire("cut_rst")
+								fire("cut_rst")
 							case "do-cancel":
 								if errors.Is(derr, context.DeadlineExceeded) {
-									r.Fire("cancel")
+									fire("cancel")
 								}
 							}
 						}
